@@ -195,6 +195,33 @@ def extra_designs():
         return T
     yield ("det/history/wrappers", wrapped)
 
+    def generator_reuse(window):
+        # one generated cell asked for twice in a design, with `window` other generator calls in between: whether both
+        # requests are the same module must not depend on how many generator calls the process made before
+        def b():
+            @h.paramclass
+            class RP:
+                k = h.Param(dtype=int, desc="k", default=0)
+
+            @h.generator
+            def ReCell(p: RP) -> h.Module:
+                m = h.Module()
+                m.a = h.Port()
+                m.r = h.R(r=1 + p.k)(p=m.a, n=m.a)
+                return m
+            T = h.Module(name=f"ReuseT{window}")
+            T.s = h.Signal()
+            T.u0 = ReCell(k=0)(a=T.s)
+            for k in range(window):
+                c = ReCell(k=k + 1)
+                if k % 50 == 0:
+                    T.add(c(a=T.s), name=f"f{k}")
+            T.u1 = ReCell(k=0)(a=T.s)
+            return T
+        return b
+    for window in (40, 150, 400):
+        yield (f"det/history/generator-reuse/{window}", generator_reuse(window))
+
 
 def unrelated_work(rnd, rounds):
     """earlier, unrelated use of the library in this process: exports and netlists of throw-away designs carrying
@@ -210,7 +237,19 @@ def unrelated_work(rnd, rounds):
             [2, 2.0, D("2"), D("2.0"), 2 * h.prefix.UNIT], [D("2.5") * 1, h.Prefixed(number=D("2.5"), prefix=h.Prefix.NANO),
                                                           h.Prefixed(number=D("2500"), prefix=h.Prefix.PICO)],
             [3, 3.0, D("3.00")], [0, 0.0, D("0")]]
-    for _ in range(rounds):
+    @h.paramclass
+    class JunkP:
+        k = h.Param(dtype=int, desc="k", default=0)
+
+    @h.generator
+    def JunkGen(p: JunkP) -> h.Module:
+        m = h.Module()
+        m.a = h.Port()
+        return m
+    for rd in range(rounds):
+        # a session's worth of generator calls (parameter sweeps): a different number in every process
+        for k in range(rnd.randint(0, 900)):
+            JunkGen(k=rd * 1000 + k)
         J = h.Module(name="Junk")
         J.a, J.b = h.Signal(), h.Signal()
         E = h.ExternalModule(name="EJ", port_list=[h.Inout(name="p")], paramtype=dict, desc="", domain="d")
@@ -359,7 +398,7 @@ def run(ctx):
         return None
     ctx.run_bounded("multi-process-digests", cases(), check,
                     rule="each design exported and netlisted (spice, spectre, verilog) in %d processes with different "
-                         "PYTHONHASHSEED; the first process fresh, the others after 1-6 rounds of unrelated earlier work (exports and netlists of throw-away designs with equal numbers written differently, sample-PDK compiles of designs freed afterwards, allocation, elaboration); digests must coincide; "
+                         "PYTHONHASHSEED; the first process fresh, the others after 1-6 rounds of unrelated earlier work (exports and netlists of throw-away designs with equal numbers written differently, sample-PDK compiles of designs freed afterwards, 0-900 throw-away generator calls per round, allocation, elaboration); digests must coincide; "
                          "distinct = distinct design; non-trivial = all but scalar-only designs" % len(hashseeds),
                     bound=f"{len(hashseeds)} hash seeds", key_of=lambda d: d,
                     nontrivial=lambda d: not d.startswith("sig/scalar"))
